@@ -16,11 +16,12 @@ pub struct Scenario {
     pub alphabet: Vec<Op>,
     pub key_opts: KeyOpts,
     pub max_depth: usize,
+    pub track: bool,
 }
 
 impl Scenario {
     pub fn build(&self, hist: &[Op]) -> World {
-        World::build(self.nrep, self.menu.clone(), hist)
+        World::build_tracked(self.nrep, self.menu.clone(), hist, self.track)
     }
     pub fn describe(&self) -> Value {
         json!({
